@@ -6,7 +6,7 @@ use crate::pgen::Tape;
 use crate::rt::*;
 use serde_json::{Value as J, json};
 
-const RULE: &str = "generated chain programs with EXTERNAL e0() / e1(a) / e2(a,b) (each with an Ink fallback function of \
+const RULE: &str = "generated chain programs with EXTERNAL e0() / e1(a) / e2ab(a,b) (each with an Ink fallback function of \
 the same name) called in every syntactic position: logic line before a line (= first statement after the \
 previous line end), at the start of a tag on a line of its own, inside line text, inside a string literal assigned to a variable, as an argument of \
 another call, in a conditional test, inside an Ink function, after glue, in choice text and in a choice \
@@ -66,7 +66,7 @@ fn call_src(c: &Call) -> String {
 
 fn gen_prog(t: &mut Tape, allow_string_calls: bool) -> Prog {
     let n = 2 + t.pick(5);
-    let mut src = String::from("EXTERNAL e0()\nEXTERNAL e1(a)\nEXTERNAL e2(a, b)\nVAR acc = 0\nVAR sv = \"\"\n-> s0\n");
+    let mut src = String::from("EXTERNAL e0()\nEXTERNAL e1(a)\nEXTERNAL e2ab(a, b)\nVAR acc = 0\nVAR sv = \"\"\n-> s0\n");
     let mut calls = vec![];
     let mut lines: Vec<Vec<LinePart>> = vec![];
     let mut has_string_calls = false;
@@ -75,7 +75,7 @@ fn gen_prog(t: &mut Tape, allow_string_calls: bool) -> Prog {
         *uniq += 1;
         match t.pick(3) {
             0 => Call { name: "e1", args: vec![*uniq] },
-            1 => Call { name: "e2", args: vec![*uniq, t.range(0, 9)] },
+            1 => Call { name: "e2ab", args: vec![*uniq, t.range(0, 9)] },
             _ => Call { name: "e1", args: vec![*uniq * 2] },
         }
     };
@@ -191,7 +191,7 @@ fn gen_prog(t: &mut Tape, allow_string_calls: bool) -> Prog {
         }
     }
     src.push_str("=== function via(x) ===\n~ return e1(x)\n");
-    src.push_str("=== function e0() ===\n~ return 5\n=== function e1(a) ===\n~ return a + 1\n=== function e2(a, b) ===\n~ return (a * 10) + b\n");
+    src.push_str("=== function e0() ===\n~ return 5\n=== function e1(a) ===\n~ return a + 1\n=== function e2ab(a, b) ===\n{b <= 0:\n    ~ return a * 10\n}\n~ return 1 + e2ab(a, b - 1)\n");
     Prog {
         src,
         calls,
